@@ -846,7 +846,15 @@ fn drive(seed: u64, group: u8, faults: bool) -> (String, Vec<String>, Vec<String
             });
         }
     }
-    drop(u);
+    // Termination::report is partial by default: unmocked, and whatever provided methods ran before
+    // (the delegation helper may exist by now), it must map the real verification status to an exit code
+    if rng.chance(1, 3) {
+        let r = std::panic::catch_unwind(std::panic::AssertUnwindSafe(move || std::process::Termination::report(u)));
+        a.push(format!("report() returned an exit code: {}", r.is_ok()));
+        b.push("report() returned an exit code: true".to_string());
+    } else {
+        drop(u);
+    }
     (format!("{} ({}, {})", what, if partial { "partial mock" } else { "strict mock" }, GROUPS[group as usize]), a, b, n_evs)
 }
 
